@@ -120,6 +120,46 @@ family!(cap_never, scale_info(capture_docs = "never"));
 // constructor's members are registered must be member order, whatever the TypeIds of this build happen to be
 macro_rules! users { ($($n:ident),*) => { $( #[derive(TypeInfo)] struct $n { v: u8 } )* } }
 users!(U1, U2, U3, U4, U5, U6, U7, U8, U9, U10, U11, U12);
+// SPECIAL STRINGS at every string position of the data model (type / module / field / variant names written as raw
+// identifiers, documentation with quotes, backslashes, JSON look-alikes, non-ASCII text, blank and very long lines;
+// hand-written paths, type names and parameter names of the same kinds): no feature may touch a string
+#[allow(non_camel_case_types)]
+mod r#async {
+    /// "quoted" \\ back\\slash {"json": [1, 2]}
+    ///
+    /// naïve café — 日本語 🦀
+    #[derive(scale_info::TypeInfo)]
+    #[scale_info(capture_docs = "always")]
+    pub struct r#type {
+        /// r#field
+        pub r#fn: u8,
+        pub r#match: Vec<r#type>,
+        pub plain: super::r#mod::r#enum,
+    }
+    #[derive(scale_info::TypeInfo)]
+    pub enum Plain { r#loop, r#where { r#in: u16 }, r#Self_(r#type) }
+}
+#[allow(non_camel_case_types)]
+mod r#mod {
+    #[derive(scale_info::TypeInfo)]
+    #[repr(u8)]
+    pub enum r#enum { r#struct = 7, r#use(u8) }
+}
+struct HandStrings;
+impl TypeInfo for HandStrings {
+    type Identity = Self;
+    fn type_info() -> scale_info::Type {
+        scale_info::Type::builder()
+            .path(scale_info::Path::new_with_replace("r#HandStrings", "r#crate::r#a::b_::r#try", &[("b_", "r#b")]))
+            .type_params(vec![scale_info::TypeParameter::new("r#T", Some(meta_type::<u8>())), scale_info::TypeParameter::new("r#U", None)])
+            .docs_always(&["", " ", "r#doc", "a very long line: 0123456789012345678901234567890123456789012345678901234567890123456789", "\u{0}\t\r\n", "\"}]"])
+            .variant(
+                scale_info::build::Variants::new()
+                    .variant("r#v", |v| v.index(0).fields(scale_info::build::Fields::named().field(|f| f.ty::<u8>().name("r#f").type_name("r#u8")).field(|f| f.ty::<HandStrings>().name("").type_name(""))))
+                    .variant("", |v| v.index(255).docs_always(&["\u{feff}bom", "r#"]).fields(scale_info::build::Fields::unnamed().field(|f| f.ty::<bool>().type_name("r#async::r#type<'static, r#T>")))),
+            )
+    }
+}
 trait Cfg { type A; }
 struct CfgImpl;
 impl Cfg for CfgImpl { type A = u32; }
@@ -160,6 +200,7 @@ fn base_corpus() -> Vec<MetaType> {
         meta_type::<[Option<Vec<Box<str>>>; 33]>(), meta_type::<Result<&'static [u8], &'static mut String>>(),
         meta_type::<BTreeMap<String, Vec<(u8, Option<E>)>>>(), meta_type::<scale::Compact<()>>(), meta_type::<core::num::NonZeroI128>(),
         meta_type::<(u8, u8, u8, u8, u8, u8, u8, u8, u8, u8, u8, u8, u8, u8, u8, u8, u8, u8, u8, u8)>(),
+        meta_type::<r#async::r#type>(), meta_type::<r#async::Plain>(), meta_type::<r#mod::r#enum>(), meta_type::<HandStrings>(),
     ]
 }
 fn hex(b: &[u8]) -> String {
